@@ -308,7 +308,7 @@ func c06Discard(c *Ctx) {
 			notFin = append(notFin, Edge{b, 1})
 		}
 		var nexts []ssa.Instruction
-		for _, b := range fn.Blocks {
+		for _, b := range blocksIP(fn) {
 			for _, in := range b.Instrs {
 				if nx, ok := in.(*ssa.Next); ok && strings.Contains(vstr(nx.Iter), ".Roots") {
 					nexts = append(nexts, in)
@@ -429,7 +429,7 @@ func c06SeqNoRules(c *Ctx, ix *Index) {
 	// (3) the keep-N pruner computes latest-keepN only when latest >= keepN (unsigned)
 	if fn := c.needFn("C06.keepn", "consensus/cometbft/abci.(*genericPruner).Prune"); fn != nil {
 		var subs []ssa.Instruction
-		for _, b := range fn.Blocks {
+		for _, b := range blocksIP(fn) {
 			for _, in := range b.Instrs {
 				if bo, ok := in.(*ssa.BinOp); ok && bo.Op == token.SUB && isUnsigned(bo.Type()) && vstr(bo.X) == "param:latestVersion" && strings.HasSuffix(vstr(bo.Y), "param:p.keepN") {
 					subs = append(subs, in)
@@ -502,7 +502,7 @@ func c06Inherited(c *Ctx) {
 	c.Analysed[fname(fn)] = true
 	// sets that receive nodes created by non-finalized roots: map updates under finalizedRoots[...]==false and n.Removed==false
 	discarded := map[ssa.Value]bool{}
-	for _, b := range fn.Blocks {
+	for _, b := range blocksIP(fn) {
 		for _, in := range b.Instrs {
 			mu, ok := in.(*ssa.MapUpdate)
 			if !ok || !strings.HasSuffix(vstr(mu.Key), ".Hash") && !strings.Contains(vstr(mu.Key), ".Hash") {
